@@ -5,8 +5,10 @@
     matcher assembly, the radix tree's Add / findNode / Find, FindRule, Execute's
     encoded-slash switch and capture decoding).  Spec.v is the documentation:
     path expressions, `ALL` / `!M` method lists, any-host, path_params on decoded
-    segments, decoded captures.  Guards name the recorded findings C03-F1 .. F8;
-    each has a `_refuted` witness. *)
+    segments, decoded captures.  Guards name the open findings C03-F1, F3, F4, F6, F8;
+    each has a `_refuted` witness.  C03-F2, F5, F7 were repaired by `fix:` commits
+    (88da16a, 16cf34b, a779db8): the model is parametric in them ([fx2 fx5 fx7], [true] =
+    the tree as it is now) and the pinned behaviour is kept as `_pinned_refuted`. *)
 From HV Require Import Base.Prelude C03.Model C03.Spec C03.Proofs C03.ProofsTree.
 Open Scope list_scope.
 Open Scope string_scope.
@@ -29,7 +31,7 @@ Print Assumptions C03_method_list_rejected.
 (** C03-F4: a non-empty list denoting no method is turned into "all methods" *)
 Theorem C03_F4_refuted :
   exists r cm q, only_matcher r = Some cm /\ guard_F4 (rl_methods r) = true /\
-    route_matches eng_none cm q [] [] = MYes /\ spec_route_ok eng_none r [] q [] [] = false.
+    route_matches true eng_none cm q [] [] = MYes /\ spec_route_ok eng_none r [] q [] [] = false.
 Proof. exact F4_refuted. Qed.
 Print Assumptions C03_F4_refuted.
 
@@ -41,7 +43,7 @@ Print Assumptions C03_hosts_any.
 
 Theorem C03_F1_refuted :
   exists r cm q, only_matcher r = Some cm /\ guard_F1 eng_none (rl_hosts r) q = true /\
-    route_matches eng_none cm q [] [] = MNo /\ spec_route_ok eng_none r [] q [] [] = true.
+    route_matches true eng_none cm q [] [] = MNo /\ spec_route_ok eng_none r [] q [] [] = true.
 Proof. exact F1_refuted. Qed.
 Print Assumptions C03_F1_refuted.
 
@@ -49,8 +51,8 @@ Print Assumptions C03_F1_refuted.
     `off` / `no_decode` = percent-decoded with encoded slashes left as they are *)
 Theorem C03_decode_per_setting : forall sl v d,
   spec_decode (keep_slash_of sl) v = Some d ->
-  (sl = SOn \/ (guard_F7_val v = false /\ guard_F8_val d = false)) ->
-  unescape v sl = d.
+  (sl = SOn \/ guard_F8_val d = false) ->
+  unescape true v sl = d.
 Proof. exact decode_per_setting. Qed.
 Print Assumptions C03_decode_per_setting.
 
@@ -67,20 +69,19 @@ Theorem C03_route_matches_iff : forall eng r cr,
       guard_F1 eng (rl_hosts r) q = false ->
       guard_F4 (rl_methods r) = false ->
       on_params guard_F6 (rl_slash r) q keys vals (rt_params rt) = false ->
-      on_params guard_F7 (rl_slash r) q keys vals (rt_params rt) = false ->
       on_params guard_F8 (rl_slash r) q keys vals (rt_params rt) = false ->
-      route_matches eng cm q keys vals =
+      route_matches true eng cm q keys vals =
       of_bool (spec_scheme (rl_scheme r) q && spec_method (rl_methods r) (q_method q) &&
                spec_hosts eng (rl_hosts r) q &&
                forallb (spec_param eng (rl_slash r) q keys vals) (rt_params rt)).
-Proof. exact route_semantics. Qed.
+Proof. exact route_matches_iff. Qed.
 Print Assumptions C03_route_matches_iff.
 
 Theorem C03_F6_refuted :
   exists r ps cm q keys vals, only_matcher r = Some cm /\ cm_params cm = ps /\
     length keys = length vals /\ Forall valid_enc vals /\
     on_params guard_F6 (rl_slash r) q keys vals ps = true /\
-    route_matches eng_none cm q keys vals = MNo /\ spec_route_ok eng_none r ps q keys vals = true.
+    route_matches true eng_none cm q keys vals = MNo /\ spec_route_ok eng_none r ps q keys vals = true.
 Proof. exact F6_refuted. Qed.
 Print Assumptions C03_F6_refuted.
 
@@ -88,11 +89,9 @@ Print Assumptions C03_F6_refuted.
     the captures are the decoded segments under the wildcard names, unnamed
     wildcards ("*") not exposed *)
 Theorem C03_captures_exact : forall sl q names segs caps rej,
-  (slash_eqb sl SOff && contains "%2f" (q_rawpath q)) = false ->
-  execute sl q (map_of (named_pairs names segs)) = (caps, rej) ->
+  execute true sl q (map_of (named_pairs names segs)) = (caps, rej) ->
   rej = spec_rejected sl q /\
   (rej = false -> forall sc, spec_captures sl names segs = Some sc ->
-     caps_guard_F7 sl (named_pairs names segs) = false ->
      caps_guard_F8 sl (named_pairs names segs) = false -> caps = sc).
 Proof. exact captures_exact. Qed.
 Print Assumptions C03_captures_exact.
@@ -102,38 +101,40 @@ Theorem C03_unnamed_not_exposed : forall names segs k v,
 Proof. exact unnamed_not_exposed. Qed.
 Print Assumptions C03_unnamed_not_exposed.
 
-Theorem C03_F7_refuted :
+(** the pinned tree (before a779db8) accepted a lower-case encoded slash under `off` and
+    decoded it under `off` / `no_decode` *)
+Theorem C03_F7_pinned_refuted :
   exists sl q names segs caps sc,
-    (slash_eqb sl SOff && contains "%2f" (q_rawpath q)) = true /\
-    execute sl q (map_of (named_pairs names segs)) = (caps, false) /\
+    req_guard_F7 false sl q = true /\
+    execute false sl q (map_of (named_pairs names segs)) = (caps, false) /\
     spec_rejected sl q = true /\
     spec_captures sl names segs = Some sc /\ caps <> sc.
-Proof. exact F7_refuted. Qed.
-Print Assumptions C03_F7_refuted.
+Proof. exact F7_pinned_refuted. Qed.
+Print Assumptions C03_F7_pinned_refuted.
 
 Theorem C03_F8_refuted :
   exists sl q names segs caps sc,
     caps_guard_F8 sl (named_pairs names segs) = true /\
-    execute sl q (map_of (named_pairs names segs)) = (caps, false) /\
+    execute true sl q (map_of (named_pairs names segs)) = (caps, false) /\
     spec_rejected sl q = false /\
     spec_captures sl names segs = Some sc /\ caps <> sc.
 Proof. exact F8_refuted. Qed.
 Print Assumptions C03_F8_refuted.
 
 (** the tree-side findings, on loaded rule sets *)
-Theorem C03_F2_refuted :
+Theorem C03_F2_pinned_refuted :
   exists ds q k s segs,
-    served ds q = Some (ONone, [k]) /\
+    served false true true ds q = Some (ONone, [k]) /\
     nth_error (flat_routes 0 ds) (k_vid k) = Some s /\ guard_F2_params s = true /\
     sr_segs s q = Some segs /\
     ~ call_sees_route (flat_routes 0 ds) q k /\
     k_res k = MNo /\ spec_answer eng_none s q segs = MYes.
-Proof. exact F2_refuted. Qed.
-Print Assumptions C03_F2_refuted.
+Proof. exact F2_pinned_refuted. Qed.
+Print Assumptions C03_F2_pinned_refuted.
 
 Theorem C03_F3_refuted :
   exists ds q k s segs caps sc,
-    served ds q = Some (ORule 0 caps false, [k]) /\
+    served true true true ds q = Some (ORule 0 caps false, [k]) /\
     nth_error (flat_routes 0 ds) (k_vid k) = Some s /\ sr_rule s = 0 /\
     guard_F3 (flat_routes 0 ds) s = true /\
     sr_segs s q = Some segs /\
@@ -142,24 +143,24 @@ Theorem C03_F3_refuted :
 Proof. exact F3_refuted. Qed.
 Print Assumptions C03_F3_refuted.
 
-Theorem C03_F5_refuted :
+Theorem C03_F5_pinned_refuted :
   exists ds q k s segs caps sc es t,
-    load ds = Loaded es t /\ guard_F5 false eng_none es t q = true /\
-    served ds q = Some (ORule 1 caps false, [k]) /\
+    load ds = Loaded es t /\ guard_F5 true true eng_none es t q = true /\
+    served true false true ds q = Some (ORule 1 caps false, [k]) /\
     nth_error (flat_routes 0 ds) (k_vid k) = Some s /\
     sr_segs s q = Some segs /\
     ~ call_sees_route (flat_routes 0 ds) q k /\
     spec_captures (rl_slash (sr_def s)) (declared_names (sr_tokens s)) segs = Some sc /\
     caps <> sc.
-Proof. exact F5_refuted. Qed.
-Print Assumptions C03_F5_refuted.
+Proof. exact F5_pinned_refuted. Qed.
+Print Assumptions C03_F5_pinned_refuted.
 
-Theorem C03_F5_panic_refuted :
+Theorem C03_F5_pinned_panic_refuted :
   exists ds q k es t,
-    load ds = Loaded es t /\ guard_F5 false eng_none es t q = true /\
-    served ds q = Some (OPanic, [k]) /\ k_res k = MPanic.
-Proof. exact F5_panic_refuted. Qed.
-Print Assumptions C03_F5_panic_refuted.
+    load ds = Loaded es t /\ guard_F5 true true eng_none es t q = true /\
+    served true false true ds q = Some (OPanic, [k]) /\ k_res k = MPanic.
+Proof. exact F5_pinned_panic_refuted. Qed.
+Print Assumptions C03_F5_pinned_panic_refuted.
 
 (** the hypotheses of [C03_route_matches_iff] are satisfiable by a rule using every
     kind of condition, and the matcher then says yes *)
@@ -168,8 +169,7 @@ Theorem C03_nonvacuous :
     only_matcher r = Some cm /\ length keys = length vals /\ Forall valid_enc vals /\
     guard_F1 eng_none (rl_hosts r) q = false /\ guard_F4 (rl_methods r) = false /\
     on_params guard_F6 (rl_slash r) q keys vals (cm_params cm) = false /\
-    on_params guard_F7 (rl_slash r) q keys vals (cm_params cm) = false /\
     on_params guard_F8 (rl_slash r) q keys vals (cm_params cm) = false /\
-    route_matches eng_none cm q keys vals = MYes.
+    route_matches true eng_none cm q keys vals = MYes.
 Proof. exact route_semantics_nonvacuous. Qed.
 Print Assumptions C03_nonvacuous.
